@@ -203,6 +203,29 @@ pub fn oracle(ctx: &mut Ctx, case: &Case) -> Check {
     }
     let mut r = open(&vb.bytes)?;
     check_samples(&mut r, &variant, &vb.truth, &SampleCheckOpts { check_sync: variant.frags.is_empty(), ..OPTS }).map_err(|f| super::c09::tag_multi_trex_pub(&variant, f)).map_err(tag)?;
+    // the same through the init segment + separately opened media segment path
+    if !variant.frags.is_empty() && !xforms.iter().any(|x| matches!(x, Xform::Swap { path, .. } if path.is_empty())) {
+        let init = open(&vb.bytes[..vb.init_len])?;
+        let seg = vb.segment.clone();
+        let n = seg.len() as u64;
+        let mut sr = match guarded("read_fragment_header", || init.read_fragment_header(std::io::Cursor::new(seg), n))? {
+            Ok(r) => r,
+            Err(e) => return Err(tag(Failure::new(format!("c12:variant-segment-open-failed:{}", crate::engine::normalize_msg(&e.to_string())), format!("read_fragment_header failed on the variant's media segment: {}", e)))),
+        };
+        let shifted: Vec<TrackTruth> = vb
+            .truth
+            .iter()
+            .map(|t| {
+                let mut t = t.clone();
+                for s in t.samples.iter_mut() {
+                    s.offset = s.offset.wrapping_sub(vb.init_len as u64);
+                }
+                t
+            })
+            .collect();
+        check_samples(&mut sr, &variant, &shifted, &SampleCheckOpts { check_sync: false, prefix: "c12seg" }).map_err(|f| super::c09::tag_multi_trex_pub(&variant, f)).map_err(tag)?;
+        ctx.count("path:init+segment");
+    }
     // classes
     for x in &xforms {
         ctx.count(match x {
